@@ -194,7 +194,8 @@ def r_c20(rec):
 
 
 KERNELS = ["pyanalyze.type_evaluation.ConditionEvaluator.visit_Call", "pyanalyze.type_evaluation.EvaluateVisitor.visit_If", "pyanalyze.type_evaluation.EvaluateVisitor.visit_block",
-           "pyanalyze.type_evaluation.decompose_union", "pyanalyze.type_evaluation.ConditionReturn.reverse", "pyanalyze.type_evaluation.can_assign_maybe_exclude_any"]
+           "pyanalyze.type_evaluation.decompose_union", "pyanalyze.type_evaluation.ConditionReturn.reverse", "pyanalyze.type_evaluation.can_assign_maybe_exclude_any",
+           "pyanalyze.type_evaluation.unite_varmaps"]
 REPLAYERS = {k: r_c20 for k in KERNELS}
 REPLAYERS["C20.bounded"] = r_c20
 
